@@ -776,12 +776,17 @@ class BlobStorage(BlobStorageMixin):
         self._blob_tpc_finish()
         return tid
 
-    def tpc_abort(self, *arg, **kw):
+    def tpc_abort(self, transaction, *arg, **kw):
         # We need to override the base storage's abort instead of
         # providing an _abort method because methods found on the proxied
         # object aren't rebound to the proxy
-        self.__storage.tpc_abort(*arg, **kw)
-        self._blob_tpc_abort()
+        #
+        # The storage ignores the call if the transaction isn't the one in
+        # progress; so must we, or we remove the blobs of that one.
+        ours = transaction is self.__storage.tpc_transaction()
+        self.__storage.tpc_abort(transaction, *arg, **kw)
+        if ours:
+            self._blob_tpc_abort()
 
     def _packUndoing(self, packtime, referencesf):
         # Walk over all existing revisions of all blob files and check
